@@ -1,3 +1,474 @@
+(* C13/Proofs.v — lemmas and invariants for the configuration-manager model *)
 From OV Require Import Common.Base C13.Model.
-Lemma tick_running : forall st d, running (do_tick st d) = running st.
+From Coq Require Import ZifyBool ZifyNat ZifyN.
+
+(* ------------------------------------------------------------------ basic facts *)
+Lemma path_eqb_refl p : path_eqb p p = true.
+Proof. induction p; simpl; auto. rewrite N.eqb_refl; auto. Qed.
+Lemma path_eqb_eq p q : path_eqb p q = true <-> p = q.
+Proof.
+  revert q; induction p as [|x p IH]; destruct q as [|y q]; simpl; split; intros H; try congruence; auto.
+  - apply andb_true_iff in H as [H1 H2]. apply N.eqb_eq in H1. apply IH in H2. congruence.
+  - inversion H; subst. rewrite N.eqb_refl. simpl. apply IH; auto.
+Qed.
+Lemma path_eqb_neq p q : path_eqb p q = false <-> p <> q.
+Proof.
+  split; intros H.
+  - intros E. apply path_eqb_eq in E. congruence.
+  - destruct (path_eqb p q) eqn:E; auto. apply path_eqb_eq in E. contradiction.
+Qed.
+
+Lemma get_remove_same l p : get_leaf_l (remove_leaf_l l p) p = None.
+Proof.
+  induction l as [|[q v] l IH]; simpl; auto.
+  destruct (path_eqb q p) eqn:E; auto. simpl. rewrite E. auto.
+Qed.
+Lemma get_remove_other l p q : p <> q -> get_leaf_l (remove_leaf_l l p) q = get_leaf_l l q.
+Proof.
+  intros Hn. induction l as [|[r v] l IH]; simpl; auto.
+  destruct (path_eqb r p) eqn:E.
+  - apply path_eqb_eq in E; subst r. apply path_eqb_neq in Hn. rewrite Hn. auto.
+  - simpl. destruct (path_eqb r q); auto.
+Qed.
+Lemma get_set_same s p o : get_leaf (set_leaf s p o) p = o.
+Proof.
+  unfold get_leaf, set_leaf; simpl. destruct o; simpl.
+  - rewrite path_eqb_refl; auto.
+  - apply get_remove_same.
+Qed.
+Lemma get_set_other s p o q : p <> q -> get_leaf (set_leaf s p o) q = get_leaf s q.
+Proof.
+  intros Hn. unfold get_leaf, set_leaf; simpl. destruct o; simpl.
+  - apply path_eqb_neq in Hn as Hn'. rewrite Hn'. apply get_remove_other; auto.
+  - apply get_remove_other; auto.
+Qed.
+Lemma conts_set_leaf s p o : conts (set_leaf s p o) = conts s.
 Proof. reflexivity. Qed.
+Lemma has_cont_set_leaf s p o c : has_cont (set_leaf s p o) c = has_cont s c.
+Proof. reflexivity. Qed.
+
+Lemma leaves_add_cont s c : leaves (add_cont s c) = leaves s.
+Proof. unfold add_cont. destruct (has_cont s c); reflexivity. Qed.
+Lemma has_cont_add_cont s c d :
+  has_cont (add_cont s c) d = has_cont s d || path_eqb d c.
+Proof.
+  unfold add_cont. destruct (has_cont s c) eqn:E.
+  - destruct (path_eqb d c) eqn:F; [|rewrite orb_false_r; auto].
+    apply path_eqb_eq in F; subst. rewrite E; auto.
+  - unfold has_cont at 1; simpl. rewrite orb_comm. reflexivity.
+Qed.
+Lemma leaves_add_conts ns : forall s p, leaves (add_conts s p ns) = leaves s.
+Proof.
+  unfold add_conts. induction ns as [|n ns IH]; intros; simpl; auto.
+  rewrite IH. apply leaves_add_cont.
+Qed.
+Lemma get_leaf_add_conts s p ns q : get_leaf (add_conts s p ns) q = get_leaf s q.
+Proof. unfold get_leaf. rewrite leaves_add_conts; auto. Qed.
+Lemma has_cont_add_conts ns : forall s p d,
+  has_cont (add_conts s p ns) d = has_cont s d || existsb (fun n => path_eqb d (firstn n p)) ns.
+Proof.
+  unfold add_conts. induction ns as [|n ns IH]; intros; simpl.
+  - rewrite orb_false_r; auto.
+  - rewrite IH, has_cont_add_cont. rewrite orb_assoc. reflexivity.
+Qed.
+
+(* ------------------------------------------------------------------ Set on a store *)
+Definition is_prefix (c p : path) : Prop := exists n, c = firstn n p.
+
+Lemma set_store_leaf_frame var s h p v s' ok q :
+  set_store var s h p v = (s', ok) -> q <> p -> get_leaf s' q = get_leaf s q.
+Proof.
+  unfold set_store. intros H Hn.
+  destruct (h_kind h); try (inversion H; subst; reflexivity);
+  (destruct (convert _ v) as [o|];
+   [inversion H; subst; rewrite get_set_other by congruence; apply get_leaf_add_conts
+   |inversion H; subst; destruct (v_set_atomic var); auto; apply get_leaf_add_conts]).
+Qed.
+Lemma set_store_failed_atomic s h p v s' :
+  set_store Repaired s h p v = (s', false) -> s' = s.
+Proof.
+  unfold set_store. destruct (h_kind h); try (intros H; inversion H; fail);
+  (destruct (convert _ v); intros H; inversion H; subst; reflexivity).
+Qed.
+Lemma set_store_conts_mono var s h p v s' ok c :
+  set_store var s h p v = (s', ok) -> has_cont s c = true -> has_cont s' c = true.
+Proof.
+  unfold set_store. intros H Hc.
+  destruct (h_kind h); try (inversion H; subst; assumption);
+  (destruct (convert _ v);
+   [inversion H; subst; rewrite has_cont_set_leaf, has_cont_add_conts, Hc; reflexivity
+   |inversion H; subst; destruct (v_set_atomic var); auto; rewrite has_cont_add_conts, Hc; reflexivity]).
+Qed.
+Lemma set_store_conts_new s h p v s' c :
+  set_store Repaired s h p v = (s', true) -> has_cont s' c = true -> has_cont s c = true \/ is_prefix c p.
+Proof.
+  unfold set_store. intros H Hc.
+  assert (G : forall s1, has_cont (add_conts s1 p (h_conts h)) c = true -> has_cont s1 c = true \/ is_prefix c p).
+  { intros s1 H1. rewrite has_cont_add_conts in H1. apply orb_true_iff in H1 as [H1|H1]; auto.
+    right. apply existsb_exists in H1 as [n [_ Hn]]. apply path_eqb_eq in Hn. exists n; auto. }
+  destruct (h_kind h); try (inversion H; subst; auto; fail);
+  (destruct (convert _ v); inversion H; subst; rewrite has_cont_set_leaf in Hc; auto).
+Qed.
+
+(* ------------------------------------------------------------------ events *)
+Definition ev_applied (e : ev) : list (path * value) :=
+  match e with EApply p v true => [(p, v)] | _ => [] end.
+Definition ev_rolled (e : ev) : list (path * value) :=
+  match e with ERollback p v => [(p, v)] | _ => [] end.
+Definition applied_ok (evs : list ev) : list (path * value) := flat_map ev_applied evs.
+Definition rolled (evs : list ev) : list (path * value) := flat_map ev_rolled evs.
+Definition ckey (c : change) : path * value := (c_path c, c_new c).
+
+Lemma applied_ok_app a b : applied_ok (a ++ b) = applied_ok a ++ applied_ok b.
+Proof. apply flat_map_app. Qed.
+Lemma rolled_app a b : rolled (a ++ b) = rolled a ++ rolled b.
+Proof. apply flat_map_app. Qed.
+Lemma rollback_evs_rolled l : rolled (rollback_evs l) = rev (map ckey l).
+Proof.
+  unfold rollback_evs. rewrite <- map_rev. induction (rev l); simpl; auto. f_equal; auto.
+Qed.
+Lemma rollback_evs_applied l : applied_ok (rollback_evs l) = [].
+Proof. unfold rollback_evs. induction (rev l); simpl; auto. Qed.
+
+Lemma apply_loop_spec reg chs : forall n k applied evs frr applied' failed evs' frr',
+  apply_loop reg chs n k applied evs frr = (applied', failed, evs', frr') ->
+  applied_ok evs = map ckey applied -> rolled evs = [] ->
+  applied_ok evs' = map ckey applied' /\ rolled evs' = [].
+Proof.
+  induction chs as [|c chs IH]; intros n k applied evs frr applied' failed evs' frr' H Ha Hr;
+    cbn [apply_loop] in H.
+  - inversion H; subst; auto.
+  - destruct (Nat.eqb (S n) k).
+    + inversion H; subst. rewrite applied_ok_app, rolled_app, Hr. simpl. rewrite app_nil_r. auto.
+    + eapply IH in H; eauto.
+      * rewrite applied_ok_app, map_app, Ha. reflexivity.
+      * rewrite rolled_app, Hr. reflexivity.
+Qed.
+
+(* the trace of a commit that fails: every successful Apply is rolled back, in reverse order *)
+Definition trace_undone (evs : list ev) : Prop := rolled evs = rev (applied_ok evs).
+(* the trace of a commit that succeeds: nothing is rolled back *)
+Definition trace_kept (evs : list ev) : Prop := rolled evs = [].
+
+(* ------------------------------------------------------------------ a failed commit *)
+Definition touch_state (st : state) (id : N) : state :=
+  match find_session (sessions st) id with
+  | None => st
+  | Some s => with_sessions st (put_session (sessions st) (touch s)) (lock st)
+  end.
+
+Definition commit_success (reg : registry) (st : state) (id : N) (f : faults) (st' : state) : Prop :=
+  exists s, find_session (sessions (expire st)) id = Some s /\ s_changes s <> [] /\
+    running st' = s_cand s /\ startup st' = s_cand s /\ sfile st' = Some (s_cand s) /\
+    sessions st' = remove_session (sessions (expire st)) id /\
+    lock st' = release (lock (expire st)) id /\ next_id st' = next_id st /\
+    (vmem st' = vmem st \/ exists v, vmem st' = vmem st ++ [v]) /\
+    (vfiles st' = vfiles st \/ exists v, vfiles st' = vfiles st ++ [v]).
+
+Lemma sort_changes_nil reg run chs l : sort_changes reg run chs = inr l -> chs = [] -> l = [].
+Proof. intros H E; subst. simpl in H. inversion H; auto. Qed.
+Lemma sort_changes_nonempty reg run chs x l : sort_changes reg run chs = inr (x :: l) -> chs <> [].
+Proof. intros H E. apply sort_changes_nil with (l := x :: l) in H; auto. discriminate. Qed.
+
+Lemma expire_fields st :
+  running (expire st) = running st /\ startup (expire st) = startup st /\ sfile (expire st) = sfile st /\
+  next_id (expire st) = next_id st /\ vmem (expire st) = vmem st /\ vfiles (expire st) = vfiles st.
+Proof. unfold expire; simpl; repeat split. Qed.
+
+Lemma commit_repaired_cases reg g st id f st' r evs :
+  do_commit Repaired reg g st id f = (st', r, evs) ->
+  (r <> ROk /\ st' = touch_state (expire st) id /\ trace_undone evs) \/
+  (r = ROk /\ commit_success reg st id f st' /\ trace_kept evs).
+Proof.
+  unfold do_commit, touch_state.
+  destruct (find_session (sessions (expire st)) id) as [s0|] eqn:Ef.
+  2:{ intros H; inversion H; subst. left. repeat split; try discriminate. }
+  set (st1 := with_sessions (expire st) (put_session (sessions (expire st)) (touch s0)) (lock (expire st))).
+  destruct (sort_changes reg (running (expire st)) (s_changes (touch s0))) as [e|sorted] eqn:Es.
+  { destruct e; intros H; inversion H; subst; left; repeat split; discriminate. }
+  destruct sorted as [|c0 sorted].
+  { intros H; inversion H; subst; left; repeat split; discriminate. }
+  apply sort_changes_nonempty in Es. simpl in Es.
+  destruct (negb (precommit_ok g (s_cand (touch s0)))).
+  { intros H; inversion H; subst; left; repeat split; discriminate. }
+  destruct (apply_loop reg (c0 :: sorted) 0 (f_apply f) [] [] false) as [[[applied failed] evs0] frr] eqn:Ea.
+  apply apply_loop_spec in Ea as [Hap Hro]; auto.
+  assert (U : forall mid, applied_ok mid = [] -> rolled mid = [] ->
+              trace_undone (evs0 ++ mid ++ rollback_evs applied)).
+  { intros mid M1 M2. unfold trace_undone.
+    rewrite !rolled_app, !applied_ok_app, Hro, M1, M2, rollback_evs_applied, rollback_evs_rolled, Hap.
+    simpl. rewrite app_nil_r. reflexivity. }
+  destruct failed.
+  { intros H; inversion H; subst; left; repeat split; try discriminate. apply (U []); auto. }
+  destruct (frr && f_test f).
+  { intros H; inversion H; subst; left; repeat split; try discriminate. apply (U [EFrrTest]); auto. }
+  destruct (frr && f_reload f).
+  { intros H; inversion H; subst; left; repeat split; try discriminate. apply (U [EFrrTest; EFrrReload]); auto. }
+  assert (K : trace_kept (if frr then evs0 ++ [EFrrTest; EFrrReload] else evs0)).
+  { unfold trace_kept. destruct frr; auto. rewrite rolled_app, Hro. reflexivity. }
+  cbn [Repaired v_persist_first negb].
+  destruct (f_startup f).
+  { intros H; inversion H; subst; left; repeat split; try discriminate.
+    destruct frr.
+    - rewrite <- !app_assoc. apply (U ([EFrrTest; EFrrReload] ++ [EFrrReload])); auto.
+    - apply (U []); auto. }
+  pose proof (expire_fields st) as [E1 [E2 [E3 [E4 [E5 E6]]]]].
+  destruct (version_changes reg (s_changes (touch s0))) eqn:Ev.
+  - intros H; inversion H; subst; right. split; auto. split; auto.
+    exists s0. simpl. repeat split; auto.
+  - intros H; inversion H; subst; right. split; auto. split; auto.
+    exists s0. simpl. repeat split; auto.
+    + right. eexists; reflexivity.
+    + destruct (f_version f); [left; auto | right; eexists; reflexivity].
+Qed.
+
+(* ------------------------------------------------------------------ the invariant *)
+Arguments expire : simpl never.
+Definition agrees (cand run : store) (chs : list change) : Prop :=
+  (forall p, ~ In p (map c_path chs) -> get_leaf cand p = get_leaf run p) /\
+  (forall c, has_cont run c = true -> has_cont cand c = true) /\
+  (forall c, has_cont cand c = true -> has_cont run c = true \/ exists p, In p (map c_path chs) /\ is_prefix c p).
+
+Definition Inv (st : state) : Prop :=
+  (sessions st = [] /\ lock st = None) \/
+  (exists s, sessions st = [s] /\ lock st = Some (s_id s) /\ s_alias s = false /\
+             agrees (s_cand s) (running st) (s_changes s)).
+
+Lemma agrees_refl r : agrees r r [].
+Proof. repeat split; auto. Qed.
+
+Lemma inv_init r : Inv (init_state r).
+Proof. left; auto. Qed.
+
+Lemma inv_expire st : Inv st -> Inv (expire st).
+Proof.
+  intros [[Hs Hl]|[s [Hs [Hl [Ha Hg]]]]].
+  - left. unfold expire; simpl. rewrite Hs, Hl. auto.
+  - unfold expire, Inv; simpl. rewrite Hs, Hl. simpl. destruct (alive s) eqn:E; simpl.
+    + right. exists s. auto.
+    + left. rewrite N.eqb_refl. auto.
+Qed.
+
+Lemma expire_running st : running (expire st) = running st.
+Proof. reflexivity. Qed.
+
+Lemma inv_single st s id : Inv st -> find_session (sessions st) id = Some s ->
+  sessions st = [s] /\ lock st = Some (s_id s) /\ s_id s = id /\ s_alias s = false /\
+  agrees (s_cand s) (running st) (s_changes s).
+Proof.
+  intros [[Hs Hl]|[s1 [Hs [Hl [Ha Hg]]]]] Hf.
+  - rewrite Hs in Hf. discriminate.
+  - rewrite Hs in Hf. simpl in Hf. destruct (N.eqb (s_id s1) id) eqn:E; [|discriminate].
+    inversion Hf; subst. apply N.eqb_eq in E. auto.
+Qed.
+
+Lemma put_single s s' : s_id s' = s_id s -> put_session [s] s' = [s'].
+Proof. intros E. simpl. rewrite E, N.eqb_refl. reflexivity. Qed.
+Lemma remove_single s : remove_session [s] (s_id s) = [].
+Proof. simpl. rewrite N.eqb_refl. reflexivity. Qed.
+Lemma release_own id : release (Some id) id = None.
+Proof. simpl. rewrite N.eqb_refl. reflexivity. Qed.
+
+Lemma inv_touch_state st id : Inv st -> Inv (touch_state st id).
+Proof.
+  intros HI. unfold touch_state. destruct (find_session (sessions st) id) as [s|] eqn:Ef; auto.
+  destruct (inv_single _ _ _ HI Ef) as [Hs [Hl [Hid [Ha Hg]]]].
+  right. exists (touch s). simpl. rewrite Hs, put_single by reflexivity. auto.
+Qed.
+Lemma touch_state_persist st id :
+  running (touch_state st id) = running st /\ startup (touch_state st id) = startup st /\
+  sfile (touch_state st id) = sfile st /\ vmem (touch_state st id) = vmem st /\
+  vfiles (touch_state st id) = vfiles st /\ next_id (touch_state st id) = next_id st /\
+  lock (touch_state st id) = lock st /\
+  map s_id (sessions (touch_state st id)) = map s_id (sessions st).
+Proof.
+  unfold touch_state. destruct (find_session (sessions st) id); simpl; repeat split; auto.
+  unfold put_session. rewrite map_map. apply map_ext_in. intros a _.
+  destruct (N.eqb (s_id a) (s_id (touch s))) eqn:E; auto. apply N.eqb_eq in E. simpl in *. auto.
+Qed.
+
+Lemma inv_commit reg g st id f st' r evs :
+  Inv st -> do_commit Repaired reg g st id f = (st', r, evs) -> Inv st'.
+Proof.
+  intros HI H. apply commit_repaired_cases in H as [[_ [E _]]|[_ [[s [Ef [_ [_ [_ [_ [Hs [Hl _]]]]]]]] _]]].
+  - subst. apply inv_touch_state, inv_expire, HI.
+  - apply inv_expire in HI. destruct (inv_single _ _ _ HI Ef) as [Hs1 [Hl1 [Hid _]]].
+    left. rewrite Hs, Hl, Hs1, Hl1. subst id. rewrite remove_single, release_own. auto.
+Qed.
+
+Lemma inv_create st st' r : Inv st -> do_create st = (st', r) -> Inv st'.
+Proof.
+  intros HI. apply inv_expire in HI. unfold do_create. cbv zeta.
+  destruct (lock (expire st)) eqn:El.
+  - intros H; inversion H; subst; auto.
+  - destruct HI as [[Hs _]|[s [_ [Hl _]]]]; [|congruence].
+    rewrite Hs. intros H; inversion H; subst.
+    right. eexists. simpl. split; [reflexivity|]. simpl. repeat split; auto.
+Qed.
+
+Lemma has_session_find l id : has_session l id = true -> exists s, find_session l id = Some s.
+Proof.
+  unfold has_session, find_session. induction l as [|a l IH]; simpl; [discriminate|].
+  destruct (N.eqb (s_id a) id); eauto.
+Qed.
+
+Lemma inv_close st id st' r : Inv st -> do_close st id = (st', r) -> Inv st'.
+Proof.
+  intros HI. apply inv_expire in HI. unfold do_close. cbv zeta.
+  destruct (has_session (sessions (expire st)) id) eqn:Eh.
+  - apply has_session_find in Eh as [s Ef].
+    destruct (inv_single _ _ _ HI Ef) as [Hs [Hl [Hid _]]].
+    rewrite Hs, Hl. subst id. rewrite remove_single, release_own.
+    intros H; inversion H; subst. left. auto.
+  - intros H; inversion H; subst; auto.
+Qed.
+
+Lemma inv_delete st id st' r : Inv st -> do_delete st id = (st', r) -> Inv st'.
+Proof.
+  intros HI. apply inv_expire in HI. unfold do_delete.
+  destruct (find_session (sessions (expire st)) id) as [s|] eqn:Ef.
+  - intros H; inversion H; subst.
+    pose proof (inv_touch_state _ id HI) as HT. unfold touch_state in HT. rewrite Ef in HT. exact HT.
+  - intros H; inversion H; subst; auto.
+Qed.
+
+Lemma inv_tick st d : Inv st -> Inv (do_tick st d).
+Proof.
+  intros [[Hs Hl]|[s [Hs [Hl [Ha Hg]]]]].
+  - left. unfold do_tick; simpl. rewrite Hs; auto.
+  - right. unfold do_tick; simpl. rewrite Hs. simpl. eexists; split; [reflexivity|]. simpl. auto.
+Qed.
+
+Lemma inv_rollback st v st' r : Inv st -> do_rollback st v = (st', r) -> Inv st'.
+Proof.
+  intros HI. apply inv_expire in HI. unfold do_rollback.
+  destruct (_ || _); intros H; inversion H; subst; auto.
+Qed.
+
+Lemma agrees_set cand run chs h p v cand' :
+  agrees cand run chs -> set_store Repaired cand h p v = (cand', true) ->
+  forall o, agrees cand' run (chs ++ [{| c_path := p; c_old := o; c_new := v |}]).
+Proof.
+  intros [A1 [A2 A3]] Hs o. repeat split.
+  - intros q Hq. rewrite map_app, in_app_iff in Hq. simpl in Hq.
+    rewrite (set_store_leaf_frame _ _ _ _ _ _ _ q Hs); [apply A1|]; intuition.
+  - intros c Hc. eapply set_store_conts_mono; eauto.
+  - intros c Hc. eapply set_store_conts_new in Hc; eauto. destruct Hc as [Hc|Hc].
+    + apply A3 in Hc as [Hc|[q [Hq Hp]]]; auto. right. exists q. rewrite map_app, in_app_iff. auto.
+    + right. exists p. rewrite map_app, in_app_iff. simpl. auto.
+Qed.
+
+Lemma inv_set reg st id p v vf st' r :
+  Inv st -> do_set Repaired reg st id p v vf = (st', r) -> Inv st' /\ running st' = running st.
+Proof.
+  intros HI. apply inv_expire in HI. unfold do_set.
+  destruct (find_session (sessions (expire st)) id) as [s|] eqn:Ef.
+  2:{ intros H; inversion H; subst; auto. }
+  destruct (inv_single _ _ _ HI Ef) as [Hs [Hl [Hid [Ha Hg]]]].
+  assert (HT : Inv (with_sessions (expire st) (put_session (sessions (expire st)) (touch s)) (lock (expire st)))).
+  { pose proof (inv_touch_state _ id HI) as HT. unfold touch_state in HT. rewrite Ef in HT. exact HT. }
+  destruct (get_handler reg p) as [hi|]; [|intros H; inversion H; subst; auto].
+  destruct vf; [intros H; inversion H; subst; auto|].
+  destruct (set_store Repaired (s_cand (touch s)) (hget reg hi) p v) as [cand' ok] eqn:Est.
+  rewrite Hs, put_single by reflexivity.
+  intros H; inversion H; subst; clear H. simpl. rewrite Ha. split; auto.
+  right. eexists; split; [reflexivity|]. simpl.
+  split; [exact Hl|]. split; [reflexivity|].
+  destruct ok.
+  - exact (agrees_set _ _ _ _ _ _ _ Hg Est _).
+  - apply set_store_failed_atomic in Est. subst. exact Hg.
+Qed.
+
+Lemma inv_step reg g st o st' r evs :
+  Inv st -> step Repaired reg g st o = (st', r, evs) -> Inv st'.
+Proof.
+  intros HI. destruct o; simpl.
+  - destruct (do_create st) eqn:E. intros H; inversion H; subst. eapply inv_create; eauto.
+  - destruct (do_close st id) eqn:E. intros H; inversion H; subst. eapply inv_close; eauto.
+  - destruct (do_delete st id) eqn:E. intros H; inversion H; subst. eapply inv_delete; eauto.
+  - destruct (do_set Repaired reg st id p v vfail) eqn:E. intros H; inversion H; subst. eapply inv_set; eauto.
+  - intros H; inversion H; subst. apply inv_tick; auto.
+  - destruct (do_rollback st ver) eqn:E. intros H; inversion H; subst. eapply inv_rollback; eauto.
+  - intros H. eapply inv_commit; eauto.
+Qed.
+
+Lemma inv_run reg g ops : forall st, Inv st -> Inv (run Repaired reg g st ops).
+Proof.
+  induction ops as [|o ops IH]; simpl; intros st HI; auto.
+  apply IH. destruct (step Repaired reg g st o) as [[st' r] evs] eqn:E. simpl. eapply inv_step; eauto.
+Qed.
+
+(* ------------------------------------------------------------------ the property lemmas *)
+Definition persisted (st : state) := (running st, startup st, sfile st, vfiles st, vmem st).
+
+(* atomicity: a commit that does not return ok only expires idle sessions and refreshes the
+   session's activity stamp; all successful applies are rolled back in reverse order *)
+Lemma atomic reg g st id f st' r evs :
+  do_commit Repaired reg g st id f = (st', r, evs) -> r <> ROk ->
+  st' = touch_state (expire st) id /\ persisted st' = persisted st /\ trace_undone evs.
+Proof.
+  intros H Hr. apply commit_repaired_cases in H as [[_ [E T]]|[E _]]; [|contradiction].
+  subst. split; auto. split; auto. unfold persisted.
+  destruct (touch_state_persist (expire st) id) as [P1 [P2 [P3 [P4 [P5 _]]]]].
+  rewrite P1, P2, P3, P4, P5. reflexivity.
+Qed.
+
+(* frame: a successful commit publishes exactly the candidate, which differs from the previous running
+   configuration only at paths set in this session *)
+Lemma frame reg g st id f st' evs :
+  Inv st -> do_commit Repaired reg g st id f = (st', ROk, evs) ->
+  exists s, find_session (sessions (expire st)) id = Some s /\ s_changes s <> [] /\
+    running st' = s_cand s /\ startup st' = s_cand s /\ sfile st' = Some (s_cand s) /\
+    (forall p, ~ In p (map c_path (s_changes s)) -> get_leaf (running st') p = get_leaf (running st) p) /\
+    (forall c, has_cont (running st) c = true -> has_cont (running st') c = true) /\
+    (forall c, has_cont (running st') c = true -> has_cont (running st) c = true \/
+               exists p, In p (map c_path (s_changes s)) /\ is_prefix c p) /\
+    trace_kept evs.
+Proof.
+  intros HI H. apply commit_repaired_cases in H as [[E _]|[_ [[s [Ef [Hn [Hr [Hs [Hf _]]]]]] K]]]; [congruence|].
+  apply inv_expire in HI. destruct (inv_single _ _ _ HI Ef) as [_ [_ [_ [_ [A1 [A2 A3]]]]]].
+  exists s. rewrite Hr. repeat split; auto.
+Qed.
+
+(* isolation: nothing but a successful commit changes running, startup, the startup file or the versions *)
+Lemma isolation reg g st o st' r evs :
+  Inv st -> step Repaired reg g st o = (st', r, evs) ->
+  persisted st' <> persisted st -> exists id f, o = OCommit id f /\ r = ROk.
+Proof.
+  intros HI H Hp. destruct o; simpl in H.
+  - exfalso. apply Hp. unfold do_create in H. destruct (lock (expire st)); inversion H; subst; reflexivity.
+  - exfalso. apply Hp. unfold do_close in H. destruct (has_session _ _); inversion H; subst; reflexivity.
+  - exfalso. apply Hp. unfold do_delete in H. destruct (find_session _ _); inversion H; subst; reflexivity.
+  - exfalso. apply Hp. destruct (do_set Repaired reg st id p v vfail) as [s1 r1] eqn:E. inversion H; subst.
+    pose proof (inv_set _ _ _ _ _ _ _ _ HI E) as [_ Hr].
+    unfold persisted. rewrite Hr. unfold do_set in E.
+    destruct (find_session _ _); [|inversion E; subst; reflexivity].
+    destruct (get_handler reg p); [|inversion E; subst; reflexivity].
+    destruct vfail; [inversion E; subst; reflexivity|].
+    destruct (set_store _ _ _ _ _). inversion E; subst. reflexivity.
+  - exfalso. apply Hp. inversion H; subst. reflexivity.
+  - exfalso. apply Hp. unfold do_rollback in H. destruct (_ || _); inversion H; subst; reflexivity.
+  - exists id, f. split; auto. destruct r; auto;
+    exfalso; apply Hp; (eapply atomic in H; [|discriminate]); destruct H as [_ [H _]]; exact H.
+Qed.
+
+(* single lock *)
+Lemma single_lock st : Inv st ->
+  (forall s1 s2, In s1 (sessions st) -> In s2 (sessions st) -> s1 = s2) /\
+  (forall s, In s (sessions st) -> lock st = Some (s_id s)) /\
+  (sessions st = [] -> lock st = None).
+Proof.
+  intros [[Hs Hl]|[s [Hs [Hl _]]]]; rewrite Hs; simpl; repeat split; intros; try contradiction; auto.
+  - intuition; subst; auto.
+  - intuition; subst; auto.
+  - discriminate.
+Qed.
+Lemma create_refused st o : lock (expire st) = Some o -> do_create st = (expire st, RLocked).
+Proof. intros H. unfold do_create. rewrite H. reflexivity. Qed.
+Lemma create_granted st st' id : do_create st = (st', RId id) ->
+  lock (expire st) = None /\ lock st' = Some id /\ id = (next_id st + 1)%N /\
+  exists s, In s (sessions st') /\ s_id s = id /\ s_cand s = running st /\ s_changes s = [].
+Proof.
+  unfold do_create. destruct (lock (expire st)) eqn:E; intros H; inversion H; subst.
+  simpl. repeat split; auto. eexists. split; [apply in_or_app; right; left; reflexivity|]. auto.
+Qed.
